@@ -20,7 +20,7 @@ def judge(job, res):
         lab = tuple(job["labels"].get(k, ()))
         a = r1["tree"].get(k, ""); b = r2["tree"].get(k, "")
         dec = lambda s: base64.b64decode(s[2:]).decode("utf-8", "replace") if s.startswith("F:") else s
-        site_cls = "several-sites" if (lab[:1] == ("twice",) or lab[1:2] == ("mixed",)) else (str(lab[1]) if lab[:1] == ("family",) else "single-site")   # twice / mixed import bindings = several copies of the trigger in one file
+        site_cls = "several-sites" if (str(lab[0] if lab else "").startswith("twice") or lab[1:2] == ("mixed",)) else (str(lab[1]) if lab[:1] == ("family",) else "single-site")   # twice / mixed import bindings = several copies of the trigger in one file
         v.append(Violation("C07", f"{job['cid'].split('/')[1]}/not-a-fixed-point/{site_cls}", f"second run changed {k} (changed={k in changed} write={k in writes2} changeset={k in cs2})", {"codemod": job["cid"], "labels": lab, "after_run1": dec(a), "after_run2": dec(b)}))
     return v, st, nt
 
